@@ -103,24 +103,55 @@ pub fn check_case(ctx: &Ctx, tape: &[u8], cfg: &Cfg, stats: &mut Stats) -> Resul
         | Some((call, rty)) => (
             // the global is first referenced (from a checked position) by an earlier block, then from a let tail and
             // from a match-like position by later ones
-            format!("def ! translated_first = @[monadic] begin\n( do zf <- {call} ; ret zf : Ret {rty} )\nend that\ndef ! translated_tail = @[monadic] begin\n( let zz : Unit = () in {call} : Ret {rty} )\nend that\n"),
-            format!("do q0 <- ! translated_first Ret {{ ! ret_monad }} ; do q1 <- ( {call} : Ret {rty} ) ; do q2 <- ! translated_tail Ret {{ ! ret_monad }} ; let zq : {rty} * {rty} * {rty} = ( q0 , q1 , q2 ) in\n"),
+            format!("def ! translated_first = @[monadic] begin\n( do zf <- {call} ; ret zf : Ret {rty} )\nend that\nlet Zd : VType = data | +Zk : Unit | +Zj : Unit end that\ndef ! translated_arm = @[monadic] begin\nlet zs : Zd = +Zk () in match zs | +Zk () => {call} | +Zj () => {call} end\nend that\n"),
+            format!("do q0 <- ! translated_first Ret {{ ! ret_monad }} ; do q1 <- ( {call} : Ret {rty} ) ; do q3 <- ! translated_arm Ret {{ ! ret_monad }} ; let zq : {rty} * {rty} * {rty} = ( q0 , q1 , q3 ) in\n"),
         ),
         | None => (String::new(), String::new()),
     };
+    // a separate small program for the global-calling blocks, so that a block the checker refuses in one of them
+    // does not hide the others: first a block that binds the call's result, then one that calls from match arms
+    if tail_call.is_some() {
+        let text2 = format!(
+            "{prelude}begin\n{decls}{globals}\
+def ! ret_monad : Monad Ret =\n  comatch\n  | .return A value => ret value\n  | .bind A B computation function =>\n    do value <- ! computation ;\n    ! function value\n  end\nthat\n\
+{extra_block}( {extra_main}! (process/exit) 0 : OS )\nend\n",
+            prelude = mo_prelude(ctx),
+        );
+        stats.eval();
+        let path2 = thread_dir(ctx).join("mo2.zy");
+        std::fs::write(&path2, &text2).expect("write case");
+        let session2 = CompilerSession::default();
+        match drive::analyze_executable(&session2, &path2) {
+            | Analyzed::Executable(exe, _) => {
+                let run = drive::run_executable(exe, b"", &[], 1_000_000);
+                if let RunEnd::Stuck { msg, file, line } = &run.end {
+                    let short: String = msg.chars().take(48).collect();
+                    return Err(Fail::new(
+                        format!("translated-block-goes-wrong[{short}]@{}", file.rsplit("/repo/").next().unwrap_or(file)),
+                        "a run that never goes wrong with a lawful instance",
+                        format!("`{msg}` at {file}:{line} after {} steps", run.steps),
+                    )
+                    .with(json!({"source": text2[text2.find("begin\n").unwrap_or(0)..].to_string(), "program": "blocks calling a global definition"})));
+                }
+                stats.count("global-calling-blocks:accepted-and-ran");
+            }
+            | Analyzed::Panic(p) => return Err(Fail::new(format!("analysis-{}", p.signature()), "analysis to return", p.describe())),
+            | _ => stats.count("global-calling-blocks:not-accepted(discarded)"),
+        }
+    }
     let text = format!(
         "{prelude}begin\n{decls}{globals}\
 def ! ret_monad : Monad Ret =\n  comatch\n  | .return A value => ret value\n  | .bind A B computation function =>\n    do value <- ! computation ;\n    ! function value\n  end\nthat\n\
 let RU (A : VType) : CType = Unit -> Ret A that\n\
 def ! reader_monad : Monad RU =\n  comatch\n  | .return A value => fn (_ : Unit) => ret value\n  | .bind A B computation function => fn (u : Unit) =>\n    do value <- ! computation u ;\n    ! function value u\n  end\nthat\n\
-{extra_block}def ! translated = @[monadic] begin\n( {body}\n: Ret {a_atom} )\nend that\n\
+def ! translated = @[monadic] begin\n( {body}\n: Ret {a_atom} )\nend that\n\
 def ! translated_again = @[monadic] begin\n( {body}\n: Ret {a_atom} )\nend that\n\
 let show : Thk ({a_atom} -> Thk OS -> OS) = {{ fn ({r} : {a_ty}) => fn ({k} : Thk OS) =>\n{show}\n}} that\n\
 ( do p1 <- ( {body}\n: Ret {a_atom} ) ; ! show p1 {{ ! (stdio/write_line) \"{SEP}\" {{\n\
 do p2 <- ! translated Ret {{ ! ret_monad }} ; ! show p2 {{ ! (stdio/write_line) \"{SEP}\" {{\n\
 do p3 <- ! translated RU {{ ! reader_monad }} () ; ! show p3 {{ ! (stdio/write_line) \"{SEP}\" {{\n\
 do p4 <- ! translated_again Ret {{ ! ret_monad }} ; ! show p4 {{\n\
-{extra_main}! (process/exit) 0 }} }} }} }} }} }} }} : OS )\nend\n",
+! (process/exit) 0 }} }} }} }} }} }} }} : OS )\nend\n",
         prelude = mo_prelude(ctx),
     );
     stats.eval();
